@@ -213,7 +213,7 @@ def main():
         hooks=dict(guard="PYTHON_DEBIAN_VERIF", enable="none needed: contracts are sidecars in /verif, /repo carries no hooks",
                    baseline_off_cmd="cd /repo && /venv/bin/python -m pytest -ra -q -p no:cacheprovider --timeout=900 --continue-on-collection-errors",
                    source_commits=[], add_only=True),
-        engines=[dict(name="pyvc", path="vf/pyvc", serves_properties=sorted(CHECKS),
+        engines=[dict(name="pyvc", path="vf/pyvc", serves_properties=sorted(k for k in CHECKS if not k.endswith("-old")),
                       kind_free_text="verification-condition generator over the Python ast of the real source (path-wise "
                                      "symbolic execution with contracts, loop invariants, ghost state) + regex-to-SMT "
                                      "translator; back ends z3 5.1, z3 4.8.12, cvc5 1.0.3")],
